@@ -68,6 +68,8 @@ type VC struct {
 	witness map[string]string // human name -> term (entry-state values to report in models)
 	declared map[string]bool
 	lockTerms []string
+	iters map[ssa.Value]*mapIter
+	lastIter *mapIter
 	refAxDone map[string]bool
 	frameHidePkg string
 	svContent map[string]svInfo
@@ -99,7 +101,7 @@ func newVC0(eng *Engine, fn *ssa.Function, fc *FuncContract) *VC {
 		svSort: map[string]string{}, svInit: map[string]string{},
 		strlit: map[string]string{}, assum: map[string]bool{},
 		ordinals: map[string]int{}, modCache: map[*ssa.Function]map[string]bool{},
-		witness: map[string]string{}, autoLoops: map[loopKey]*LoopContract{},
+		witness: map[string]string{}, autoLoops: map[loopKey]*LoopContract{}, iters: map[ssa.Value]*mapIter{},
 	}
 }
 
@@ -552,7 +554,8 @@ func (vc *VC) typeFacts(st *State, term string, t types.Type) {
 	case *types.Pointer, *types.Map, *types.Chan, *types.Signature:
 		vc.fact(st.pc, fmt.Sprintf("(and (>= %s 0) (< %s %s))", term, term, vc.allocBound(st)))
 	case *types.Struct:
-		vc.fact(st.pc, fmt.Sprintf("(and (> %s 0) (< %s %s))", term, term, vc.allocBound(st)))
+		// struct values are references to value objects; 0 is the zero value
+		vc.fact(st.pc, fmt.Sprintf("(and (>= %s 0) (< %s %s))", term, term, vc.allocBound(st)))
 	case *types.Interface:
 		vc.fact(st.pc, fmt.Sprintf("(and (>= (if_type %s) 0) (=> (= (if_type %s) 0) (= (if_val %s) 0)) (=> (> (if_type %s) 0) (and (> (if_val %s) 0) (< (if_val %s) %s))))",
 			term, term, term, term, term, term, vc.allocBound(st)))
